@@ -179,7 +179,8 @@ def chainWalkRepeat (E : Env) (folder : Str) : List Member → Except C18.Err (L
   | [] => .ok []
   | m :: ms => do
     let fl ← walkB E m.b (replaceBS (join2 m.pfx folder))
-    let here := fl.map fun x => (replaceBS ((relpath E.cwd x.1 m.pfx).getD []), x.2)
+    let here := fl.map fun x =>
+      (replaceBS ((relpath E.cwd x.1 (if E.rawCfg.chainRelSlash then replaceBS m.pfx else m.pfx)).getD []), x.2)
     let rest ← chainWalkRepeat E folder ms
     pure (here ++ rest)
 
